@@ -160,10 +160,12 @@ class Sym:
         )
 
     @staticmethod
-    def opaque(name, lo=0, hi=None, nonzero=False):
-        """an integer known only by name (e.g. len(list))"""
-        return Sym(bits=None, poly=p_sym(name), lo=lo, hi=hi, nonzero=nonzero,
-                   origin=("opaque", name))
+    def opaque(name, lo=0, hi=None, nonzero=False, width=64):
+        """an integer known only by name (e.g. len(list)); it still has a bit
+        view (``width`` named bits) so that it can be traced into a buffer"""
+        s = Sym(bits=[frozenset([("p", name, j)]) for j in range(width)] if width else None,
+                poly=p_sym(name), lo=lo, hi=hi, nonzero=nonzero, origin=("opaque", name))
+        return s
 
     def key(self):
         return (self.bits, p_key(self.poly) if self.poly is not None else None)
